@@ -26,6 +26,7 @@ import time
 from . import e3
 
 DYN = " [dynamic]"
+IMPLIED = "DEFAULT (implied by sinks > OPTIONAL)"
 UNBUILT = "UNBUILT"
 
 
@@ -131,6 +132,7 @@ def active_view(res: e3.BuildResult, *, complete: bool = True) -> dict:
             ent["inp"].sort()
             ent["out"].sort()
         view[k] = ent
+    _settle_needs(view, nodes)
     if not complete:
         for k, ent in view.items():
             if ent["kind"] == "step" and ent["props"]["need"] == ["OPTIONAL"] and ent["state"] == "SUCCEEDED":
@@ -156,6 +158,59 @@ def active_view(res: e3.BuildResult, *, complete: bool = True) -> dict:
         for x in ent["inp"]:
             x[1] = x[0] not in view
     return view
+
+
+def _needed_fixpoint(declared: dict, consumers: dict) -> set:
+    """Steps with an effective need above OPTIONAL: declared so, or producing an input of one."""
+    needed = {k for k, d in declared.items() if d != "OPTIONAL"}
+    changed = True
+    while changed:
+        changed = False
+        for k in declared:
+            if k not in needed and any(c in needed for c in consumers.get(k, ())):
+                needed.add(k)
+                changed = True
+    return needed
+
+
+def _settle_needs(view: dict, nodes: dict) -> None:
+    """Replace the printed need of every step of the view by the need that the edges OF THE VIEW
+    imply (so that an implied need which only rests on the remembered amended input of a step
+    that is not SUCCEEDED is treated like that edge: as memory), and flag ``stale_need`` when the
+    printed implied need is not even justified by the raw graph (the cached column is stale)."""
+    declared, printed = {}, {}
+    for k, ent in view.items():
+        if ent["kind"] == "step":
+            text = (ent["props"].get("need") or ["DEFAULT"])[0]
+            printed[k] = text
+            declared[k] = text.split(">")[-1].strip(" )") if "implied" in text else text
+    producer = {o: k for k, ent in view.items() if ent["kind"] == "step" for o, _ in ent["out"]}
+    cons_view: dict = {}
+    for k, ent in view.items():
+        if ent["kind"] == "step":
+            for sk, _, _ in ent["inp"]:
+                if sk in producer:
+                    cons_view.setdefault(producer[sk], set()).add(k)
+    # raw graph: every attached consumer through any edge of any attached output
+    cons_raw: dict = {}
+    for k in declared:
+        for s in nodes[k][1]["rel"].get("sink", []):
+            fk, fdet, _ = _strip(s)
+            if fdet or fk not in nodes:
+                continue
+            for c in nodes[fk][1]["rel"].get("sink", []):
+                ck, cdet, _ = _strip(c)
+                if not cdet and ck in declared:
+                    cons_raw.setdefault(k, set()).add(ck)
+    need_view = _needed_fixpoint(declared, cons_view)
+    need_raw = _needed_fixpoint(declared, cons_raw)
+    for k in declared:
+        ent = view[k]
+        ent["stale_need"] = "implied" in printed[k] and k not in need_raw
+        if declared[k] == "OPTIONAL":
+            ent["props"]["need"] = [IMPLIED] if k in need_view else ["OPTIONAL"]
+        else:
+            ent["props"]["need"] = [declared[k]]
 
 
 PRIORITY = ["rc", "static-digest", "step-state", "extra-step", "missing-step", "content", "file-state", "extra-file",
@@ -318,7 +373,6 @@ SIG_D8 = "C01:D8:stale-implied-need-keeps-optional-step-built"
 SIG_F4 = "C01:F4:stale-amended-input-blocks-redefined-step"
 SIG_F5 = "C01:F5:reattached-static-file-not-revalidated"
 SIG_F6 = "C01:F6:env-var-restored-to-declared-value-leaves-stale-output"
-IMPLIED = "DEFAULT (implied by sinks > OPTIONAL)"
 MISSING_RE = "PathError: Path does not exist: "
 
 
@@ -401,11 +455,12 @@ def signatures(inc: e3.BuildResult, scr: e3.BuildResult, diffs: list, triggers: 
                 consumers.setdefault(sk, set()).add(k)
     f3, d8 = set(), set()
     for d in diffs:
-        if d["kind"] == "prop:need" and d["a"] == [IMPLIED] and d["b"] == ["OPTIONAL"]:
+        if d["key"] in va and va[d["key"]].get("stale_need"):
+            d8.add(d["key"])            # the cached implied need has no support in the graph (D8)
+    for d in diffs:
+        if d["kind"] == "prop:need" and d["a"] == [IMPLIED] and d["b"] == ["OPTIONAL"] and d["key"] not in d8:
             ent = va[d["key"]]
-            if not any(consumers.get(o) for o, _ in ent["out"]):
-                d8.add(d["key"])        # nothing consumes any output: the cached need is stale (D8)
-            elif not any(True for o, dyn in ent["out"] if not dyn for c in consumers.get(o, ())
+            if not any(True for o, dyn in ent["out"] if not dyn for c in consumers.get(o, ())
                          if va[c]["props"]["need"] != ["OPTIONAL"]
                          and any(sk == o and not sdyn for sk, _, sdyn in va[c]["inp"])):
                 # every edge that makes it needed is run-time knowledge of an earlier build: an
@@ -634,23 +689,3 @@ def shrink(case: dict, keep, budget_s: float = 25.0, max_runs: int = 200) -> tup
 
 def case_size(case: dict) -> int:
     return len(json.dumps(case, sort_keys=True))
-
-
-# ---------------------------------------------------------------------------------------------
-# Content function of simulated steps: a function of the SET of things read
-# ---------------------------------------------------------------------------------------------
-
-
-def _derived_canonical(self, path: str) -> str:
-    """Replacement for ``e3._Sim.derived``: the default content of a written file depends on the
-    set of (name, content) pairs read so far, not on their order or multiplicity.  A step that is
-    redefined with an amended input promoted to a declared input reads that file twice under
-    ``auto``; a real deterministic command does not change its output for that, and StepUp
-    rightly skips it (same input digest)."""
-    import hashlib
-    acc = sorted({json.dumps(x, sort_keys=True) for x in self.acc})
-    blob = json.dumps(acc)
-    return f"{self.label}|{path}|{hashlib.sha256(blob.encode()).hexdigest()[:16]}\n"
-
-
-e3._Sim.derived = _derived_canonical
